@@ -70,7 +70,7 @@ def load_ocr_engine(path, chars, H=16, seed=0, batch_size=8, **kw):
     return eng, net
 
 
-def make_lstm_lm(letters, seed, dim=8, double=True):
+def make_lstm_lm(letters, seed, dim=8, double=True, dropout=0.0, train_mode=False):
     """A real brnolm LanguageModel (2-layer LSTM + full softmax) with seeded random weights: history dependent."""
     import torch
     from brnolm.language_models.language_model import LanguageModel
@@ -81,7 +81,7 @@ def make_lstm_lm(letters, seed, dim=8, double=True):
     for i, c in enumerate(letters):
         vocab[c] = i + 2
     enc = torch.nn.Embedding(len(vocab), dim)
-    model = LSTMLanguageModel(enc, dim, dim, 2, dropout=0.0)
+    model = LSTMLanguageModel(enc, dim, dim, 2, dropout=dropout)
     dec = FullSoftmaxDecoder(dim, len(vocab), init_range=2.0)
     for p in model.parameters():
         p.data.uniform_(-1.5, 1.5)
@@ -89,6 +89,7 @@ def make_lstm_lm(letters, seed, dim=8, double=True):
     if double:
         lm = lm.double()
     lm._unused_prefix_len = 2
+    lm.train(train_mode)          # a freshly built or fine-tuned model arrives in training mode; one loaded for inference in eval mode
     return lm
 
 
